@@ -122,6 +122,20 @@ func primRun(r *report.Report, l *report.Local, prop string, pc primCase) {
 			}
 		case !bytes.Equal(libB, refB):
 			r.Violate("encode/bytes-differ/"+pc.class, cs, fmt.Sprintf("library %s reference %s", shortHex(libB), shortHex(refB)), nil)
+		case pc.typ == "#bits" && pc.val.NBits > 0:
+			// the same value handed over in a buffer that is longer than the bit length needs, with the bits beyond the
+			// length set (a caller's 4-octet buffer for a 22-bit gNB id): those bits are not part of the value
+			bs := append([]byte{}, pc.val.B...)
+			if rem := pc.val.NBits % 8; rem != 0 && len(bs) > 0 {
+				bs[len(bs)-1] |= 0xff >> rem
+			}
+			bs = append(bs, 0xff, 0x5a)
+			v.Elem().FieldByName("V").Set(reflect.ValueOf(aper.BitString{Bytes: bs, BitLength: pc.val.NBits}))
+			var b2 []byte
+			var e2 error
+			if p2 := recoverErr(func() { b2, e2 = aper.Marshal(v.Elem().Interface()) }); p2 != nil || e2 != nil || !bytes.Equal(b2, refB) {
+				r.Violate("encode/bytes-differ/over-long-buffer/"+pc.class, cs+" [value in an over-long buffer with the surplus bits set]", fmt.Sprintf("library %s (%v %v) reference %s", shortHex(b2), p2, e2, shortHex(refB)), nil)
+			}
 		}
 		return
 	}
